@@ -7,6 +7,7 @@ import (
 	"encoding/json"
 	"fmt"
 	"os"
+	"path/filepath"
 	"runtime"
 	"sort"
 	"strings"
@@ -136,28 +137,29 @@ var actorAlphabet = map[string]string{
 }
 
 var contentAlphabet = map[string]func(w *worker) string{
-	"valid":          func(w *worker) string { return w.baseCfg + extraRoute },
+	"valid":           func(w *worker) string { return w.baseCfg + extraRoute },
 	"valid-unhealthy": func(w *worker) string { return w.fx.configText(w.dir, w.fx.unhealthyAddr, extraRoute) },
-	"parse-invalid":  func(w *worker) string { return w.baseCfg + "\"/broken\" {\n  pull { path \"/eb\" }\n" },
+	"parse-invalid":   func(w *worker) string { return w.baseCfg + "\"/broken\" {\n  pull { path \"/eb\" }\n" },
 	"compile-invalid": func(w *worker) string { return w.baseCfg + "\"/r\" {\n  pull { path \"/e\" }\n}\n" },
-	"garbage":        func(w *worker) string { return "@@@ not a config {{{" },
-	"empty":          func(w *worker) string { return "" },
+	"garbage":         func(w *worker) string { return "@@@ not a config {{{" },
+	"empty":           func(w *worker) string { return "" },
 }
 
-// variantsFor lists the argument-shape variants of one tool (thorough tier; "minimal" is the quick tier).
+// variantsFor lists the argument-shape variants of one tool ("minimal" is the gating-table row itself; the
+// thorough tier adds environment states and a repeated call).
 func variantsFor(tool string, thorough bool) []string {
 	t, known := refByName[tool]
 	vs := []string{"minimal"}
 	if thorough {
 		// environment states and a repeated call in one session (same gate, other code paths / error paths)
-		vs = append(vs, "env:no-db", "env:bad-config", "env:no-config", "twice")
+		vs = append(vs, "env:no-db", "env:bad-config", "env:no-config", "env:memory-backend", "twice")
 	}
 	if !known {
 		return append(vs, "no-arguments")
 	}
 	vs = append(vs, "unknown-key", "no-arguments")
 	if t.Mutating {
-		for _, a := range []string{"actor-eq", "actor-other", "actor-case", "actor-prefix", "actor-ext"} {
+		for _, a := range []string{"actor-eq", "actor-other", "actor-case", "actor-prefix", "actor-ext", "actor-number", "actor-empty"} {
 			vs = append(vs, a)
 		}
 	}
@@ -165,7 +167,7 @@ func variantsFor(tool string, thorough bool) []string {
 		vs = append(vs, "no-reason")
 	}
 	if toolsWithPath[tool] {
-		vs = append(vs, "path-own", "path-foreign-existing", "path-foreign-new", "path-suffix", "path-dir", "path-dotdot", "path-relative")
+		vs = append(vs, "path-own", "path-foreign-existing", "path-foreign-new", "path-suffix", "path-dir", "path-dotdot", "path-relative", "path-alias")
 	}
 	if tool == "config_apply" {
 		for _, c := range []string{"valid", "valid-unhealthy", "parse-invalid", "compile-invalid", "garbage", "empty"} {
@@ -180,8 +182,7 @@ func variantsFor(tool string, thorough bool) []string {
 	return vs
 }
 
-// buildArgs materialises a variant. foreignPaths lists paths (other than the configured one) the arguments
-// point to.
+// buildArgs materialises a variant of the tool's minimal arguments.
 func buildArgs(w *worker, tool, variant string) (args map[string]any, omit bool, err error) {
 	args = minimalArgs(w, tool)
 	switch {
@@ -192,12 +193,19 @@ func buildArgs(w *worker, tool, variant string) (args map[string]any, omit bool,
 		args = cloneArgs(args)
 		args["zz_unknown_key"] = "x"
 	case strings.HasPrefix(variant, "actor-"):
-		a, ok := actorAlphabet[variant]
-		if !ok {
-			return nil, false, fmt.Errorf("unknown variant %q", variant)
-		}
 		args = cloneArgs(args)
-		args["actor"] = a
+		switch variant {
+		case "actor-number":
+			args["actor"] = 42 // supplied, and certainly not equal to the principal
+		case "actor-empty":
+			args["actor"] = "" // nothing supplied
+		default:
+			a, ok := actorAlphabet[variant]
+			if !ok {
+				return nil, false, fmt.Errorf("unknown variant %q", variant)
+			}
+			args["actor"] = a
+		}
 	case variant == "no-reason":
 		args = cloneArgs(args)
 		delete(args, "reason")
@@ -217,7 +225,16 @@ func buildArgs(w *worker, tool, variant string) (args map[string]any, omit bool,
 		case "path-dotdot":
 			args["path"] = w.dir + "/foreign/../foreign/Hookaidofile"
 		case "path-relative":
-			args["path"] = "foreign/Hookaidofile"
+			// the existing foreign file, spelled relative to the process working directory
+			rel := "foreign/Hookaidofile"
+			if cwd, err := os.Getwd(); err == nil {
+				if r, err := filepath.Rel(cwd, w.foreign); err == nil {
+					rel = r
+				}
+			}
+			args["path"] = rel
+		case "path-alias":
+			args["path"] = w.dir + "/./Hookaidofile" // the configured file under another spelling: either answer is fine
 		default:
 			return nil, false, fmt.Errorf("unknown variant %q", variant)
 		}
@@ -256,17 +273,18 @@ func mustRun(tool, variant string) bool {
 type finding struct{ Key, Msg string }
 
 type caseResult struct {
-	Spec      caseSpec
-	Verdict   verdict
-	Refused   bool
-	Listed    bool
-	AuditN    int
-	AuditRes  string
-	Effects   []string
-	Findings  []finding
-	InfraErr  string
-	InputHash string
-	ArgsJSON  string
+	Spec       caseSpec
+	Verdict    verdict
+	Refused    bool
+	Listed     bool
+	AuditN     int
+	AuditRes   string
+	Effects    []string
+	Findings   []finding
+	InfraErr   string
+	InputHash  string
+	AdminReads int
+	ArgsJSON   string
 }
 
 var auditFields = []string{"timestamp", "principal", "role", "tool", "input_hash", "result"}
@@ -312,7 +330,13 @@ func runCase(w *worker, spec caseSpec) *caseResult {
 			cr.InfraErr = err.Error()
 			return cr
 		}
+	case "env:memory-backend":
+		if err := os.WriteFile(w.cfgPath, []byte(memoryBackendConfig(w.rec.addr)), 0o600); err != nil {
+			cr.InfraErr = err.Error()
+			return cr
+		}
 	}
+	w.rec.take()
 	repeat := 1
 	if spec.Variant == "twice" {
 		repeat = 2
@@ -377,8 +401,15 @@ func runCase(w *worker, spec caseSpec) *caseResult {
 
 	// --- reference verdict
 	actor, actorSupplied := "", false
-	if a, ok := args["actor"].(string); ok && a != "" {
-		actor, actorSupplied = a, true
+	if raw, present := args["actor"]; present {
+		if a, ok := raw.(string); !ok {
+			actor, actorSupplied = fmt.Sprint(raw), true // a non-string actor is supplied and is not the principal
+			if actor == spec.Cfg.Principal {
+				actor += "#non-string"
+			}
+		} else if a != "" {
+			actor, actorSupplied = a, true
+		}
 	}
 	gk := spec.key()
 	var v verdict
@@ -450,6 +481,13 @@ func runCase(w *worker, spec caseSpec) *caseResult {
 	}
 	for _, s := range signals {
 		effects = append(effects, "process:signal-"+s)
+	}
+	for _, q := range w.rec.take() {
+		if strings.HasPrefix(q, "GET ") || strings.HasPrefix(q, "HEAD ") {
+			cr.AdminReads++ // a read of the Admin API is not an effect on queue, config or processes
+			continue
+		}
+		effects = append(effects, "admin-api:"+q)
 	}
 	sort.Strings(effects)
 	cr.Effects = effects
@@ -614,6 +652,20 @@ func allCases(thorough bool) []caseSpec {
 
 const maxReportedKeys = 40
 
+// cases shown as samples in the evidence file (fixed choice, independent of scheduling)
+var sampleKeys = []string{
+	"config_apply:admin:m1r1:p1", "config_apply:operate:m1r1:p1", "dlq_delete:operate:m1r0:p0",
+	"instance_stop:admin:m0r1:p1", "messages_publish:operate:m1r0:p1:actor-other",
+	"config_apply:admin:m1r1:p1:content:compile-invalid:write_only", "config_delete:admin:m1r1:p1", "dlq_delete:operate:m1r0:p1",
+}
+var wantedSamples = func() map[string]bool {
+	m := map[string]bool{}
+	for _, k := range sampleKeys {
+		m[k] = true
+	}
+	return m
+}()
+
 type foundCase struct {
 	idx int
 	msg string
@@ -679,15 +731,20 @@ func TestCheck(t *testing.T) {
 				r.Violation("toolset:missing:"+t.Name, "documented tool "+t.Name+" is not listed by a fully enabled admin server", map[string]any{"tool": t.Name}, nil)
 			}
 		}
-		// the advertised schema tells which tools take actor/path: must agree with the documentation-derived sets
+		// the advertised schema tells which tools take actor/path; a difference to the documentation-derived sets
+		// is recorded in the evidence (it is outside the property statement, so not a violation)
+		var schemaNotes []string
 		for _, t := range refTable {
 			props := full.Schemas[t.Name]
 			if _, has := props["actor"]; has != toolsWithActorArg[t.Name] && props != nil {
-				r.Violation("schema:"+t.Name+":actor", fmt.Sprintf("inputSchema of %s has actor=%v, spec.md documents %v", t.Name, has, toolsWithActorArg[t.Name]), nil, nil)
+				schemaNotes = append(schemaNotes, fmt.Sprintf("inputSchema of %s has actor=%v, spec.md documents %v", t.Name, has, toolsWithActorArg[t.Name]))
 			}
 			if _, has := props["path"]; has != toolsWithPath[t.Name] && props != nil {
-				r.Violation("schema:"+t.Name+":path", fmt.Sprintf("inputSchema of %s has path=%v, spec.md documents %v", t.Name, has, toolsWithPath[t.Name]), nil, nil)
+				schemaNotes = append(schemaNotes, fmt.Sprintf("inputSchema of %s has path=%v, spec.md documents %v", t.Name, has, toolsWithPath[t.Name]))
 			}
+		}
+		if len(schemaNotes) > 0 {
+			r.Set("schema_vs_spec_notes", schemaNotes)
 		}
 	}
 	w0.close()
@@ -724,18 +781,20 @@ func TestCheck(t *testing.T) {
 		nw = 1
 	}
 	var (
-		mu          sync.Mutex
-		hashByArgs  = map[string]string{} // tool|args -> input_hash
-		argsByHash  = map[string]string{} // input_hash -> tool-independent args json
-		resultClass = map[string]map[string]int{"denied": {}, "ran-ok": {}, "failed": {}}
-		effectSeen  = map[string]int{}
-		allowedRuns = map[string]int{}
-		relational  []finding
-		found       = map[string]foundCase{} // violation key -> first (lowest index) failing case
-		foundN      = map[string]int{}
-		done        int
-		stopped     bool
-		debug       = os.Getenv("VERIF_C20_DEBUG")
+		mu           sync.Mutex
+		hashByArgs   = map[string]string{} // tool|args -> input_hash
+		argsByHash   = map[string]string{} // input_hash -> tool-independent args json
+		resultClass  = map[string]map[string]int{"denied": {}, "ran-ok": {}, "failed": {}}
+		effectSeen   = map[string]int{}
+		allowedRuns  = map[string]int{}
+		relational   []finding
+		found        = map[string]foundCase{} // violation key -> first (lowest index) failing case
+		sampleOf     = map[string]any{}
+		proxyEffects int
+		foundN       = map[string]int{}
+		done         int
+		stopped      bool
+		debug        = os.Getenv("VERIF_C20_DEBUG")
 	)
 	jobs := make(chan int)
 	var wg sync.WaitGroup
@@ -783,9 +842,11 @@ func TestCheck(t *testing.T) {
 					outcome = "refused"
 				}
 				r.Distinct(fmt.Sprintf("%s|%s|%s|ref=%s|%s", spec.Tool, spec.Cfg.key(), spec.Variant, cr.Verdict, outcome))
-				if cr.Verdict == refAllow && !cr.Refused || (idx%97 == 0) {
-					r.Sample(map[string]any{"tool": spec.Tool, "cfg": spec.Cfg.key(), "variant": spec.Variant, "ref": cr.Verdict.String(),
-						"refused": cr.Refused, "listed": cr.Listed, "audit_records": cr.AuditN, "audit_result": cr.AuditRes, "effects": cr.Effects})
+				if wantedSamples[spec.key()] {
+					mu.Lock()
+					sampleOf[spec.key()] = map[string]any{"tool": spec.Tool, "cfg": spec.Cfg.key(), "variant": spec.Variant, "ref": cr.Verdict.String(),
+						"refused": cr.Refused, "listed": cr.Listed, "audit_records": cr.AuditN, "audit_result": cr.AuditRes, "effects": cr.Effects}
+					mu.Unlock()
 				}
 				if debug != "" && strings.Contains(spec.key(), debug) {
 					fmt.Printf("DEBUG %-70s ref=%-6s refused=%-5v listed=%-5v audit=%d/%-7s effects=%v\n", spec.key(), cr.Verdict, cr.Refused, cr.Listed, cr.AuditN, cr.AuditRes, cr.Effects)
@@ -815,8 +876,11 @@ func TestCheck(t *testing.T) {
 				}
 				if cr.Verdict == refAllow && !cr.Refused && known {
 					allowedRuns[spec.Tool]++
-					if spec.Variant == "minimal" && expectedEffectSeen(spec.Tool, cr.Effects) {
+					if spec.Variant == "minimal" && tref.Mutating && expectedEffectSeen(spec.Tool, cr.Effects) {
 						effectSeen[spec.Tool]++
+					}
+					if spec.Variant == "env:memory-backend" && queueMutators[spec.Tool] && expectedEffectSeen(spec.Tool, cr.Effects) {
+						proxyEffects++
 					}
 				}
 				mu.Unlock()
@@ -844,6 +908,12 @@ func TestCheck(t *testing.T) {
 	wg.Wait()
 	if stopped {
 		r.NotExhaustive(fmt.Sprintf("wall budget reached after %d of %d cases", done, len(cases)))
+	}
+
+	for _, k := range sampleKeys {
+		if v, ok := sampleOf[k]; ok {
+			r.Sample(v)
+		}
 	}
 
 	// --- report: one violation per distinct key, in a scheduling-independent order (round robin over the key
@@ -924,7 +994,6 @@ func TestCheck(t *testing.T) {
 		sort.Strings(classes[c])
 	}
 	r.Set("audit_result_values", classes)
-	r.Set("audit_input_hashes_distinct", len(argsByHash))
 
 	// --- vacuity: every tool ran at least once, every mutating tool showed its effect at least once
 	if r.Violations() == 0 && !stopped {
@@ -941,13 +1010,16 @@ func TestCheck(t *testing.T) {
 	for _, n := range effectSeen {
 		eff += n
 	}
-	r.Set("allowed_rows_with_observed_effect", eff)
+	r.Set("mutating_allowed_rows_with_observed_effect", eff)
+	if r.Thorough() {
+		r.Set("admin_proxy_mutations_observed", proxyEffects)
+	}
 	r.Set("workers", nw)
 	r.Set("cases_planned", len(cases))
-	r.Set("rule", "complete product: 31 documented tool names + 2 unknown names x role input {read, operate, admin, invalid 'root' via WithRole, invalid 'superuser' via Server.Role} x --enable-mutations {off,on} x --enable-runtime-control {off,on} x principal {set, empty} = 1320 table rows; every row is one Serve session (initialize, tools/list, tools/call with minimal valid arguments) on a fresh scratch directory (seeded SQLite queue db, config file, pid file of a harness child, foreign files) with side-effect probes; every row is repeated for every argument-shape variant of its tool (unknown key, no arguments, actor = / != principal in 4 spellings, missing reason, 7 path spellings, config_apply content{6} x mode{3}, management mode{2}); thorough adds 5 more unknown names (padded / upper-case spellings of real tools), 3 more invalid role inputs, 3 environment states (db missing, config unparsable, config missing) and a repeated call in one session. A case is distinct by (tool, configuration, variant, reference verdict, observed outcome)")
+	r.Set("rule", "complete product: 31 documented tool names + 2 unknown names x role input {read, operate, admin, invalid 'root' via WithRole, invalid 'superuser' via Server.Role} x --enable-mutations {off,on} x --enable-runtime-control {off,on} x principal {set, empty} = 1320 table rows; every row is one Serve session (initialize, tools/list, tools/call with minimal valid arguments) on a fresh scratch directory (seeded SQLite queue db, config file, pid file of a harness child, foreign files) with side-effect probes; every row is repeated for every argument-shape variant of its tool (unknown key, no arguments, actor = / != principal in 4 spellings, missing reason, 8 path spellings, config_apply content{6} x mode{3}, management mode{2}); thorough adds 5 more unknown names (padded / upper-case spellings of real tools), 3 more invalid role inputs, 4 environment states (db missing, config unparsable, config missing, all routes on the memory backend = admin-proxy mode against a recording Admin API stand-in) and a repeated call in one session. A case is distinct by (tool, configuration, variant, reference verdict, observed outcome)")
 	r.Assume("reference table transcribed from docs/mcp.md, internal/mcp/spec.md, DESIGN.md 'Access Model' (cross-checked against the tree's docs at run time); 'refused' = JSON-RPC error or result.isError")
 	r.Assume("invalid role strings: the statement does not say whether they mean 'read' (documented default) or 'nothing'; both are accepted for read-level tools as long as tools/list and tools/call agree; anything above read must be refused")
-	r.Assume("queue backend sqlite only (admin-proxy mode for memory/postgres backends is not exercised); process effects are observed on harness-owned children (fake run binary = this test binary, signal-recording sleeper); admin health is an in-process loopback listener")
+	r.Assume("queue backend sqlite in the table; admin-proxy mode (memory backend) only as a thorough-tier environment variant against a recording stand-in that answers 200 to everything (postgres is the same code path, not run); process effects are observed on harness-owned children (fake run binary = this test binary, signal-recording sleeper); admin health is an in-process loopback listener")
 	r.Assume("confinement is checked on the enumerated path/content alphabet, not on arbitrary strings; audit fields are checked for presence and plausibility (principal/role/tool equal the configuration, input_hash is a function of and injective on the arguments seen, result separates denied/failed from success), not for formatting")
 	r.Finish()
 }
@@ -965,7 +1037,7 @@ func expectedEffectSeen(tool string, effects []string) bool {
 	case configWriters[tool]:
 		return has("config-file")
 	case queueMutators[tool]:
-		return has("queue-db")
+		return has("queue-db") || has("admin-api:")
 	case tool == "instance_start":
 		return has("process:run-binary-started")
 	case tool == "instance_stop":
